@@ -1,6 +1,6 @@
 (* C13 - confirms, returns and blocked notices are forwarded verbatim, in order.
    This file only pins statements. *)
-From Amq Require Import Lib.Base Gen.Consts Model.Wire Model.Frames Model.OutBuf Model.Collector Model.Slots Model.Core Spec.Slots Spec.Content Proofs.Slots Proofs.OutBuf Proofs.Collector Proofs.CoreContent Proofs.CoreInv Proofs.CoreMore Check.Core Proofs.Examples.
+From Amq Require Import Lib.Base Gen.Consts Model.Wire Model.Frames Model.OutBuf Model.Collector Model.Slots Model.Core Spec.Slots Spec.Content Proofs.Slots Proofs.OutBuf Proofs.Collector Proofs.CoreContent Proofs.CoreInv Proofs.CoreMore Check.Core Proofs.Examples Lib.RsVal Gen.SrcQueues Proofs.QueuesSrc.
 
 (* an ack / nack on channel n reaches the current confirm listener as exactly (ack|nack, tag, multiple), appended at the end of its queue; nothing else changes *)
 Theorem C13_confirm_forwarded : forall (n dtag : N) (multiple ack : bool) (dbg : str) (c : core) (s : slot) (q : N), steady c -> n <> 0 -> alookup n (c_slots c) = Some s -> s_conf s = Some q -> has_room q (c_qs c) -> process c (FMethod n (if ack then MAck dtag multiple else MNack dtag multiple), dbg) = (OOk, set_slot (set_qs c (pushed q (IConfirm ack dtag multiple) (c_qs c))) n s).
@@ -26,6 +26,18 @@ Proof. exact blocked_forwarded. Qed.
 Theorem C13_no_panic : forall (c : core) (f : dframe) (o : outcome) (c' : core), process c f = (o, c') -> WFs c -> (forall site : N, o <> OPanic site) /\ WFs c'.
 Proof. exact process_WFs. Qed.
 
+(* THE MODEL IS THE SOURCE: try_send_return of src/io_loop/connection_state.rs as translated from the source text on every run (Gen/SrcQueues.v, tools/rs2sm.py) is the model's listener_send on the return handler: no handler - nothing happens; the queue takes the item - appended, handler kept; full or receiver gone - the handler is cleared and nothing else changes; the confirm handler is never touched. enc_item is how an item is passed on, the world is every client-visible queue (Model/Core.v's qs) *)
+Theorem C13_try_send_return_source_is_model : forall (enc_item : qitem -> val) (ret conf : option N) (it : qitem) (m : qs), gen_try_send_return ext_st_model (enc_slot enc_item ret conf m) (enc_item it) = (enc_slot enc_item (fst (listener_send ret it m)) conf (world_after ret it m), VC "()" []).
+Proof. exact try_send_return_source_is_model. Qed.
+
+(* ... and try_send_confirm is listener_send on the confirm handler, the return handler untouched (seed C13i cleared the wrong one: this obligation breaks) *)
+Theorem C13_try_send_confirm_source_is_model : forall (enc_item : qitem -> val) (ret conf : option N) (it : qitem) (m : qs), gen_try_send_confirm ext_st_model (enc_slot enc_item ret conf m) (enc_item it) = (enc_slot enc_item ret (fst (listener_send conf it m)) (world_after conf it m), VC "()" []).
+Proof. exact try_send_confirm_source_is_model. Qed.
+
+(* ... where the model's world differs from the encoded one only by the sender flag of a cleared handler's queue (drop_tx: in the code the effect of dropping the Sender value) *)
+Theorem C13_listener_send_world : forall (h : option N) (it : qitem) (m : qs), snd (listener_send h it m) = world_after h it m \/ (exists q' : N, h = Some q' /\ fst (listener_send h it m) = None /\ snd (listener_send h it m) = drop_tx q' (world_after h it m)).
+Proof. exact listener_send_world. Qed.
+
 (* non-vacuity of C13_confirm_forwarded: a confirm listener installed the way the handle does
    it (queue 3, through the mailbox of channel 1); an ack (multiple) and a nack arrive: the
    listener's queue holds exactly those two, verbatim, in order *)
@@ -44,6 +56,9 @@ Check C13_dropped_listener : forall (n dtag : N) (multiple : bool) (dbg : str) (
 Check C13_replaced : forall (n : N) (h : option N) (c : core) (s : slot), n <> 0 -> alookup n (c_slots c) = Some s -> channel_message n (MsgSetConfirm h) c = (OOk, set_slot (set_qs c (drop_tx_opt (s_conf s) (c_qs c))) n (with_conf s h)) /\ channel_message n (MsgSetReturn h) c = (OOk, set_slot (set_qs c (drop_tx_opt (s_ret s) (c_qs c))) n (with_ret s h)).
 Check C13_blocked_forwarded : forall (reason dbg : str) (c : core) (z : ch0slot) (q : N), steady c -> c_ch0 c = Some z -> z_blocked z = Some q -> has_room q (c_qs c) -> exists z' : ch0slot, process c (FMethod 0 (MBlocked reason), dbg) = (OOk, set_ch0 (set_qs c (pushed q (IBlocked reason) (c_qs c))) (Some z')) /\ z_blocked z' = Some q.
 Check C13_no_panic : forall (c : core) (f : dframe) (o : outcome) (c' : core), process c f = (o, c') -> WFs c -> (forall site : N, o <> OPanic site) /\ WFs c'.
+Check C13_try_send_return_source_is_model : forall (enc_item : qitem -> val) (ret conf : option N) (it : qitem) (m : qs), gen_try_send_return ext_st_model (enc_slot enc_item ret conf m) (enc_item it) = (enc_slot enc_item (fst (listener_send ret it m)) conf (world_after ret it m), VC "()" []).
+Check C13_try_send_confirm_source_is_model : forall (enc_item : qitem -> val) (ret conf : option N) (it : qitem) (m : qs), gen_try_send_confirm ext_st_model (enc_slot enc_item ret conf m) (enc_item it) = (enc_slot enc_item ret (fst (listener_send conf it m)) (world_after conf it m), VC "()" []).
+Check C13_listener_send_world : forall (h : option N) (it : qitem) (m : qs), snd (listener_send h it m) = world_after h it m \/ (exists q' : N, h = Some q' /\ fst (listener_send h it m) = None /\ snd (listener_send h it m) = drop_tx q' (world_after h it m)).
 
 Print Assumptions C13_confirm_forwarded.
 Print Assumptions C13_confirm_discarded.
@@ -51,4 +66,7 @@ Print Assumptions C13_dropped_listener.
 Print Assumptions C13_replaced.
 Print Assumptions C13_blocked_forwarded.
 Print Assumptions C13_no_panic.
+Print Assumptions C13_try_send_return_source_is_model.
+Print Assumptions C13_try_send_confirm_source_is_model.
+Print Assumptions C13_listener_send_world.
 Print Assumptions C13_example.
